@@ -307,6 +307,17 @@ pub fn run(args: &Args) -> Report {
         let maxlen = args.usize("len", 5);
         let exec = |sc: &[u8]| if storage == "shm" { seq_history::<iceoryx2_cal::zero_copy_connection::posix_shared_memory::Connection>(sc) } else { seq_history::<iceoryx2_cal::zero_copy_connection::process_local::Connection>(sc) };
         let nshards = args.u64("nshards", 1);
+        if let Some(sc) = args.kv.get("script") {
+            // replay of one history (comma separated operation indices), repeated --times
+            let seq: Vec<u8> = sc.split(',').filter_map(|x| x.trim().parse().ok()).collect();
+            for _ in 0..args.u64("times", 1) {
+                rep.execs += 1;
+                if let Some((rule, msg)) = exec(&seq) {
+                    rep.violation(&rule, format!("C13:seq:{}", rule), msg, Json::obj().set("history", seq.iter().map(|o| op_name(*o)).collect::<Vec<_>>().join(" ")));
+                }
+            }
+            return rep;
+        }
         let mut n = 0u64;
         for len in 1..=maxlen {
             let mut seq = vec![0u8; len];
@@ -318,7 +329,7 @@ pub fn run(args: &Args) -> Report {
                         rep.nontrivial += 1;
                     }
                     if let Some((rule, msg)) = exec(&seq) {
-                        rep.violation(&rule, format!("C13:seq:{}", rule), msg, Json::obj().set("history", seq.iter().map(|o| op_name(*o)).collect::<Vec<_>>().join(" ")));
+                        rep.violation(&rule, format!("C13:seq:{}", rule), msg, Json::obj().set("history", seq.iter().map(|o| op_name(*o)).collect::<Vec<_>>().join(" ")).set("replay_args", format!("c13 --part seq --storage {} --script {} --times 200", storage, seq.iter().map(|o| o.to_string()).collect::<Vec<_>>().join(","))));
                     }
                 }
                 let mut i = len;
